@@ -102,7 +102,11 @@ Section Expect.
     match s, d with
     | SLeaf m _ _ _, DLeaf v => evalue (nm_mod m) v
     | SCont m kids, DCont c => option_map EObj (ekids (fun k dk => enode false k dk) top (nm_mod m) kids c)
-    | SList m _ row, DList rows => option_map EArr (erows (fun r => enode false row r) rows)
+    | SList m _ row, DList rows =>
+        match row with
+        | SCont _ _ => option_map EArr (erows (fun r => enode false row r) rows)   (* an entry is an object *)
+        | _ => None
+        end
     | _, _ => None
     end.
 
@@ -110,10 +114,14 @@ Section Expect.
       wrapped in an object with that single member (unset leaf: the empty object) *)
   Definition estart (st : start) : option jexp :=
     match st with
-    | StCont top s d => enode top s (visit false s d)
+    | StCont top s d => match s with SCont _ _ => enode top s (visit false s d) | _ => None end
     | StList top pmod s d =>
-        option_map (fun e => EObj [(member_name (c_qualify cfg) top pmod (smeta s), e)])
-                   (enode false s (visit true s d))
+        match s with
+        | SList _ _ _ =>
+            option_map (fun e => EObj [(member_name (c_qualify cfg) top pmod (smeta s), e)])
+                       (enode false s (visit true s d))
+        | _ => None
+        end
     | StLeaf m v =>
         match v with
         | None => Some (EObj [])
